@@ -174,7 +174,9 @@ Definition step_oracle (hooks : list nat) (tmo_nids : list nat) (s : ost) (x : o
           let exists_ := Nat.ltb t (length (qstates s)) in
           let qst := nth t (qstates s) SNone in
           let s1 := {| ots := ots s; started := started s; ended := ended s; end_state := end_state s; viols := viols s;
-                       since_quiet := 0; qstates := qstates s; qended := qended s; pending_ops := rest; fired := fired s |} in
+                       (* what the next operation meets: the states (and the ending) after this action's own effects --
+                          the next action may arrive before anything else runs (held scheduler) *)
+                       since_quiet := 0; qstates := map o_state (ots s); qended := ended s; pending_ops := rest; fired := fired s |} in
           if ok then
             let s1 := if exists_ then s1 else oviol s1 503 t in
             let s1 := if exists_ && (if Nat.eqb a 8 then negb (nkind_beq (o_kind (otk s t)) KStep) else negb (nkind_beq (o_kind (otk s t)) KAct))
